@@ -37,6 +37,7 @@ type Opts struct {
 	MaxChunkSize  int // 0 = default
 	MaxRecordSize int
 	WriteFlushMs  int // 0 = 2
+	WriteIdleSec  int // 0 = library default (30): chunk writers close (and release their descriptors) when idle that long
 	NoRPC         bool
 }
 
@@ -90,6 +91,9 @@ func Start(dir string, o Opts) (s *Srv, err error) {
 	cfg.JrnlCtrlConfig.WriteFlushMs = 2
 	if o.WriteFlushMs > 0 {
 		cfg.JrnlCtrlConfig.WriteFlushMs = o.WriteFlushMs
+	}
+	if o.WriteIdleSec > 0 {
+		cfg.JrnlCtrlConfig.WriteIdleSec = o.WriteIdleSec
 	}
 	if o.MaxChunkSize > 0 {
 		cfg.JrnlCtrlConfig.MaxChunkSize = int64(o.MaxChunkSize)
